@@ -61,6 +61,9 @@ pub fn c01(ctx: &Ctx) -> PropResult {
     for src in crate::props6::condition_value_family() {
         cases.push(run_case(src, "condition-values"));
     }
+    for src in crate::props6::near_equal_family() {
+        cases.push(run_case(src, "near-equal"));
+    }
     // indexing a string is by character: every position of strings with multi-byte characters, inside expressions
     for st in ["héllo wörld", "aé中😀b", "😀", "ab", "日本語テキスト"] {
         let n = st.chars().count();
@@ -101,7 +104,7 @@ pub fn c01(ctx: &Ctx) -> PropResult {
     let stats = run_cases(&ctx.driver, cases, &no_panic_oracle, &no_known, ctx.threads);
     PropResult {
         stats,
-        rule: format!("exhaustive operator table: 13 binary/logical operators x {0}x{0} operand exemplars (0, -0, 1, -1, fractions, 2^53+1, 1e308, inf, -inf, NaN, strings incl. non-ASCII, TRUE, FALSE, NULL, empty/one-element/nested lists, native object) and 2 unary operators x {0}; random expression trees to depth 5 (thorough 7) over literals, variables, assignment, indexing, indexed assignment, list literals, calls, with a probe procedure that displays a tag at operands; compared: output bytes, end class, error span; non-trivial = the run ended normally or with a runtime error; operands that change the length of the list another operand addresses; list + over 13 x 13 kinds of operand expression; every value class as the condition of REPEAT UNTIL (sequences false, false, true), IF, ELSE IF, NOT, AND, OR", EXEMPLARS.len()),
+        rule: format!("exhaustive operator table: 13 binary/logical operators x {0}x{0} operand exemplars (0, -0, 1, -1, fractions, 2^53+1, 1e308, inf, -inf, NaN, strings incl. non-ASCII, TRUE, FALSE, NULL, empty/one-element/nested lists, native object) and 2 unary operators x {0}; random expression trees to depth 5 (thorough 7) over literals, variables, assignment, indexing, indexed assignment, list literals, calls, with a probe procedure that displays a tag at operands; compared: output bytes, end class, error span; non-trivial = the run ended normally or with a runtime error; operands that change the length of the list another operand addresses; list + over 13 x 13 kinds of operand expression; every value class as the condition of REPEAT UNTIL (sequences false, false, true), IF, ELSE IF, NOT, AND, OR; numbers next to each other at eleven magnitudes x ten distances under == != <= >= <", EXEMPLARS.len()),
         exhaustive: false,
         notes: vec![],
     }
@@ -330,6 +333,14 @@ pub fn c02(ctx: &Ctx) -> PropResult {
     for src in crate::props6::condition_value_family() {
         cases.push(run_case(src, "condition-values"));
     }
+    // loop variables of a called procedure named like variables of the caller
+    for src in crate::props6::callee_loop_variable_family() {
+        cases.push(run_case(src, "callee-loop-variable"));
+    }
+    // branches without braces followed by ELSE / ELSE IF on the same line; brace-less bodies at the end of the input
+    for src in crate::props6::unbraced_continuation_family() {
+        cases.push(run_case(src, "unbraced-continuation"));
+    }
     // every statement position of a three-statement loop body takes BREAK / CONTINUE, for every loop form and count
     for (head, tail) in [("REPEAT 3 TIMES {", "}"), ("k <- 0\nREPEAT UNTIL (k >= 3) {\nk <- k + 1", "}"), ("FOR EACH x IN [1, 2, 3] {", "}")] {
         for ctl in ["BREAK", "CONTINUE"] {
@@ -431,7 +442,7 @@ pub fn c02(ctx: &Ctx) -> PropResult {
     let stats = run_cases(&ctx.driver, cases, &newline_twin_oracle, &no_known, ctx.threads);
     PropResult {
         stats,
-        rule: "random control-flow skeletons (depth <= 3, <= 3 statements per block; IF/ELSE over 10 condition values incl. 0, -0, NULL, \"\", []; REPEAT TIMES with counts 0, 1, 2, 3, 2.7, -1, 0.99, variable; REPEAT UNTIL; FOR EACH over lists and strings incl. non-ASCII and an outer variable of the same name; BREAK/CONTINUE wherever a loop encloses) with a DISPLAY probe per statement; BREAK/CONTINUE at every position of a three-statement body of every loop form, bare and guarded, alone and nested; random general programs; non-trivial = ended normally or with a runtime error; every falsy and truthy value class as a condition REPEAT UNTIL re-tests, and under IF / unbraced IF / ELSE IF / NOT / AND / OR, directly, through a procedure and through an assignment".into(),
+        rule: "random control-flow skeletons (depth <= 3, <= 3 statements per block; IF/ELSE over 10 condition values incl. 0, -0, NULL, \"\", []; REPEAT TIMES with counts 0, 1, 2, 3, 2.7, -1, 0.99, variable; REPEAT UNTIL; FOR EACH over lists and strings incl. non-ASCII and an outer variable of the same name; BREAK/CONTINUE wherever a loop encloses) with a DISPLAY probe per statement; BREAK/CONTINUE at every position of a three-statement body of every loop form, bare and guarded, alone and nested; random general programs; non-trivial = ended normally or with a runtime error; every falsy and truthy value class as a condition REPEAT UNTIL re-tests, and under IF / unbraced IF / ELSE IF / NOT / AND / OR, directly, through a procedure and through an assignment; a callee's loop variable named like a variable of the caller; brace-less branches followed by ELSE on the same line and brace-less bodies at the very end of the input".into(),
         exhaustive: false,
         notes: vec![],
     }
@@ -583,6 +594,9 @@ pub fn c03(ctx: &Ctx) -> PropResult {
     for src in crate::props6::returned_list_identity_family() {
         cases.push(run_case(src, "returned-list-identity"));
     }
+    for src in crate::props6::callee_loop_variable_family() {
+        cases.push(run_case(src, "callee-loop-variable"));
+    }
     for src in effectful_header_family() {
         cases.push(run_case(src, "call-from-loop-header"));
     }
@@ -604,7 +618,7 @@ pub fn c03(ctx: &Ctx) -> PropResult {
     let stats = run_cases(&ctx.driver, cases, &newline_twin_oracle, &no_known, ctx.threads);
     PropResult {
         stats,
-        rule: "random programs with 1-3 procedures (0-3 parameters, bodies with nested IF / all three loops / RETURN valued or bare / recursion), calls nested in expressions, argument counts off by one, undefined names; RETURN (valued, bare, with expression, absent) at each of 3 positions inside 6 nesting wrappers followed by probes; fixed scenarios for recursion, mutual recursion, scope isolation in both directions, by-value / by-reference, argument order; non-trivial = ended normally or with a runtime error; every parameter count in 0..3, 254..256 against argument counts 0..4, 253..257, 511, 512; bodies of one statement without braces (and their braced twins) touching names of the caller; eleven ways to get a list back from a procedure x six operations through the result / the original; empty bodies in six forms with parameters named like the caller's variables; the same list for two or three parameters of one call".into(),
+        rule: "random programs with 1-3 procedures (0-3 parameters, bodies with nested IF / all three loops / RETURN valued or bare / recursion), calls nested in expressions, argument counts off by one, undefined names; RETURN (valued, bare, with expression, absent) at each of 3 positions inside 6 nesting wrappers followed by probes; fixed scenarios for recursion, mutual recursion, scope isolation in both directions, by-value / by-reference, argument order; non-trivial = ended normally or with a runtime error; every parameter count in 0..3, 254..256 against argument counts 0..4, 253..257, 511, 512; bodies of one statement without braces (and their braced twins) touching names of the caller; eleven ways to get a list back from a procedure x six operations through the result / the original; empty bodies in six forms with parameters named like the caller's variables; the same list for two or three parameters of one call; a callee's loop variable named like a variable of the caller".into(),
         exhaustive: false,
         notes: vec![],
     }
@@ -626,11 +640,15 @@ pub fn c04(ctx: &Ctx) -> PropResult {
             let v = vars[rng.below(2)];
             let w = vars[rng.below(3)];
             let i = idx[rng.below(idx.len())].replace("(a)", &format!("({v})"));
-            let stmt = match rng.below(29) {
+            let stmt = match rng.below(32) {
                 25 => format!("d <- same({w})"),
                 26 => format!("{v} <- pick([{w}, d], {})", 1 + rng.below(2)),
                 27 => format!("APPEND(same({v}), {})", rng.below(9)),
                 28 => format!("d <- pick([0, {v}], 2)"),
+                // (a list stored into itself would be a list that contains itself: outside the properties)
+                29 if v != w => format!("APPEND({v}, {w})"),
+                30 if v != w => format!("INSERT({v}, 1, {w})"),
+                31 if v != w => format!("{v}[1] <- {w}"),
                 21 => format!("{v} <- {w} <- [{}, {}]", rng.below(9), rng.below(9)),
                 22 => format!("DISPLAY({v} <- [{}] + [{}])", rng.below(9), rng.below(9)),
                 23 => format!("d <- ({v} <- [{}, 0])", rng.below(9)),
@@ -695,6 +713,9 @@ pub fn c04(ctx: &Ctx) -> PropResult {
     for src in crate::props6::library_result_identity_family() {
         cases.push(run_case(src, "library-result-identity"));
     }
+    for src in crate::props6::stored_equal_contents_family() {
+        cases.push(run_case(src, "stored-equal-contents"));
+    }
     // x <- y with x already a list and y another list with the same printed contents: x's cell takes y's elements (the
     // inner lists of y, its own zeros), whatever x held
     for (xs, ys) in [("[[1], [2]]", "[[1], [2]]"), ("[0, 5]", "[-0, 5]"), ("[[[]]]", "[[[]]]"), ("[\"a\", [1]]", "[\"a\", [1]]"), ("[1, 2]", "[1, 2]")] {
@@ -728,7 +749,7 @@ pub fn c04(ctx: &Ctx) -> PropResult {
     let stats = run_cases(&ctx.driver, cases, &no_panic_oracle, &no_known, ctx.threads);
     PropResult {
         stats,
-        rule: "random histories (length <= 12, thorough 30) over variables a, b (lists), c (string), d (alias): literal, assignment between variables, index read / write with 14 index values (-1, 0, 0.5, 1, 1.9, 2, LENGTH, LENGTH+0.5, LENGTH+1, LENGTH+2, NaN, inf, string, NULL), APPEND, INSERT, REMOVE, LENGTH, +, passing to a procedure that mutates then reassigns its parameter, nesting in a list, aliasing; all variables displayed after every step; plus every index value on a list and a non-ASCII string for read / write / INSERT / REMOVE; non-trivial = ended normally or with a runtime error; lists handed back by procedures (the parameter, an element, a local, through a second procedure, from a loop, a copy) changed through the result and through the original; FOR EACH while the body changes the list at the current, an earlier or a later position (index write, INSERT, REMOVE, APPEND, by name / alias, every ending); the operand-order family; statements whose operands change the length of the list they address; list + over 13 x 13 kinds of operand expression; the same list for several parameters; lists that come out of library calls which do not build them (MAP_GET, MAP_INSERT's result, REMOVE's result, indexed elements) changed through the result and through the container".into(),
+        rule: "random histories (length <= 12, thorough 30) over variables a, b (lists), c (string), d (alias): literal, assignment between variables, index read / write with 14 index values (-1, 0, 0.5, 1, 1.9, 2, LENGTH, LENGTH+0.5, LENGTH+1, LENGTH+2, NaN, inf, string, NULL), APPEND, INSERT, REMOVE, LENGTH, +, passing to a procedure that mutates then reassigns its parameter, nesting in a list, aliasing; all variables displayed after every step; plus every index value on a list and a non-ASCII string for read / write / INSERT / REMOVE; non-trivial = ended normally or with a runtime error; lists handed back by procedures (the parameter, an element, a local, through a second procedure, from a loop, a copy) changed through the result and through the original; FOR EACH while the body changes the list at the current, an earlier or a later position (index write, INSERT, REMOVE, APPEND, by name / alias, every ending); the operand-order family; statements whose operands change the length of the list they address; list + over 13 x 13 kinds of operand expression; the same list for several parameters; lists that come out of library calls which do not build them (MAP_GET, MAP_INSERT's result, REMOVE's result, indexed elements) changed through the result and through the container; lists stored into lists whose contents equal theirs".into(),
         exhaustive: false,
         notes: vec![],
     }
@@ -810,7 +831,18 @@ pub fn c05(ctx: &Ctx) -> PropResult {
                 Box::new(PExpr::Leaf("[5, 6]".into())),
                 Box::new(PExpr::Bin("+", l(0), l(1))),
             ];
+            // (literals only: constant folding, if any, must give what evaluation gives - errors included)
+            for (a, b, c) in [("6", "8", "0"), ("1", "0", "2"), ("7", "0", "0"), ("0", "0", "1"), ("5", "2", "3")] {
+                let lf = |x: &str| Box::new(PExpr::Leaf(x.to_string()));
+                trees.push(PExpr::Bin(op, lf(a), lf(b)));
+                trees.push(PExpr::Bin(op, lf(b), lf(c)));
+                for op2 in ["/", "MOD", "-", "*"] {
+                    trees.push(PExpr::Bin(op, Box::new(PExpr::Bin(op2, lf(a), lf(b))), lf(c)));
+                    trees.push(PExpr::Bin(op, lf(a), Box::new(PExpr::Bin(op2, lf(b), lf(c)))));
+                }
+            }
             for left in lefts {
+                trees.push(PExpr::Bin(op, left.clone(), Box::new(PExpr::Leaf("0".into()))));
                 trees.push(PExpr::Bin(op, left.clone(), two()));
                 trees.push(PExpr::Bin(op, left.clone(), Box::new(PExpr::Un("-", two()))));
                 trees.push(PExpr::Bin(op, two(), left));
@@ -925,8 +957,14 @@ pub fn c05(ctx: &Ctx) -> PropResult {
     }
     // with a required pair of parentheses removed the text means something else (or nothing): the parser must agree
     // with the model on every such text (trees and diagnostics), not only on the well-formed renderings
-    for t in trees.iter().take(if ctx.quick() { 1_200 } else { 20_000 }) {
+    // (a sample across the whole list - the systematic families come first, the random trees last -, and every tree
+    // that contains an assignment: without its parentheses an assignment inside an operand is a different program)
+    let stride = if ctx.quick() { (trees.len() / 1_500).max(1) } else { (trees.len() / 30_000).max(1) };
+    for (ti, t) in trees.iter().enumerate() {
         let min = t.render_min();
+        if ti % stride != 0 && !(min.contains("<-") && ti % (stride / 8).max(1) == 0) {
+            continue;
+        }
         let chars: Vec<char> = min.chars().collect();
         let mut stack = vec![];
         let mut pairs = vec![];
@@ -969,7 +1007,7 @@ pub fn c05(ctx: &Ctx) -> PropResult {
     let stats = run_cases(&ctx.driver, cases, &oracle, &no_known, ctx.threads);
     PropResult {
         stats,
-        rule: format!("{} expression trees: every ordered pair of the 13 binary operators in both shapes, every binary operator with unary -, NOT, assignment and indexing at each operand (thorough: every triple in all five shapes), random trees with 2-8 operators incl. calls, assignment and indexing; each rendered with only the required parentheses and fully parenthesised, run under {} valuations (distinct primes, zeros for errors, mixed kinds) with a probe procedure at every leaf so that order, once-ness and short-circuiting show in the output; implementation-only oracle: both renderings behave identically (output, end class, error kind); the minimal rendering is also compared with the model; chains of postfix operators (indexing of an indexing or of a call result, two and three deep, under every binary and unary operator, as assignment target) with valuations failing at the first, second or third step; every triple of operators in the balanced shape (a . b) . (c . d); chains of 8 .. 70 operands plain / fully parenthesised / with doubled parentheses; the minimal text without any blank the lexical grammar does not need; number literals as operands after every kind of left operand", trees.len(), per_tree),
+        rule: format!("{} expression trees: every ordered pair of the 13 binary operators in both shapes, every binary operator with unary -, NOT, assignment and indexing at each operand (thorough: every triple in all five shapes), random trees with 2-8 operators incl. calls, assignment and indexing; each rendered with only the required parentheses and fully parenthesised, run under {} valuations (distinct primes, zeros for errors, mixed kinds) with a probe procedure at every leaf so that order, once-ness and short-circuiting show in the output; implementation-only oracle: both renderings behave identically (output, end class, error kind); the minimal rendering is also compared with the model; chains of postfix operators (indexing of an indexing or of a call result, two and three deep, under every binary and unary operator, as assignment target) with valuations failing at the first, second or third step; every triple of operators in the balanced shape (a . b) . (c . d); chains of 8 .. 70 operands plain / fully parenthesised / with doubled parentheses; the minimal text without any blank the lexical grammar does not need; number literals as operands after every kind of left operand; literal-only operands incl. zero divisors; required-parentheses-removed texts as a strided sample over all trees plus every tree with an assignment", trees.len(), per_tree),
         exhaustive: false,
         notes: vec![],
     }
